@@ -147,7 +147,7 @@ Proof.
   destruct (find_entry "GAM" "fit" AW) as [e|] eqn:F; [|vm_compute in F; discriminate].
   exists e. pose proof (find_some _ _ F) as [HI _].
   vm_compute in F. inversion F; subst e. clear F.
-  repeat split; try reflexivity; try exact HI.
+  repeat split; try exact HI; try (vm_compute; reflexivity).
   exists 1, NInf. split; reflexivity.
 Qed.
 
@@ -164,7 +164,7 @@ Lemma refuting_sound : forall cls meth arg k d fitted skip,
        run_trace (e_actions e) d fitted skip = RaisedVE).
 Proof.
   intros cls meth arg k d fitted skip Hc Hex Hall. apply existsb_exists in Hex. destruct Hex as [e [He Hr]].
-  unfold refuting in Hr. rewrite !andb_true_iff in Hr. destruct Hr as [[[_ Ha] Hs] Hn].
+  unfold refuting in Hr. rewrite !andb_true_iff in Hr. destruct Hr as [[[[[_ _] _] Ha] Hs] Hn].
   rewrite (Hall e k d fitted skip He Ha Hc Hs) in Hn. discriminate.
 Qed.
 
@@ -231,5 +231,5 @@ Proof.
   - repeat split; try reflexivity; try discriminate.
     intros i e H. destruct i as [|[|[|i]]]; simpl in H; try (inversion H; reflexivity). destruct i; discriminate.
   - destruct (find_entry "GAM" "predict" AX) as [e|] eqn:F; [|vm_compute in F; discriminate].
-    exists e. pose proof (find_some _ _ F) as [HI _]. vm_compute in F. inversion F; subst e. repeat split; try reflexivity. exact HI.
+    exists e. pose proof (find_some _ _ F) as [HI _]. vm_compute in F. inversion F; subst e. repeat split; try (vm_compute; reflexivity). exact HI.
 Qed.
